@@ -247,6 +247,13 @@ func (s *shape) refExts() []pki.Ext {
 		}
 		out = append(out, e)
 	}
+	if s.kind == kPrePI && !s.leafAKI && piAKI != nil {
+		// RFC 6962 s3.2 and the statement are silent on a precertificate without the extension
+		// under a signing certificate that has one. Pinned (coordinator's ruling, same assumption
+		// as C03) to the documented, upstream-tested behaviour of x509.BuildPrecertTBS: the signing
+		// certificate's extension, value verbatim and non-critical, appended as the last extension.
+		out = append(out, pki.Ext{OID: pki.OIDAKI, Critical: false, Value: piAKI.Value, Label: "aki"})
+	}
 	return out
 }
 
